@@ -143,6 +143,7 @@ func fromTerm(t *Term, k types.BasicKind) value {
 func strBytes(v value) []value {
 	switch s := v.(type) {
 	case string:
+		checkLazy(s)
 		r := make([]value, len(s))
 		for i := 0; i < len(s); i++ {
 			r[i] = s[i]
